@@ -12,7 +12,10 @@ use starlark::environment::GlobalsBuilder;
 use starlark::environment::Module;
 use starlark::eval::Evaluator;
 use starlark::eval::ReturnFileLoader;
+use starlark::values::FrozenHeap;
 use starlark::values::FrozenHeapName;
+use starlark::values::FrozenHeapRef;
+use starlark::values::FrozenValue;
 use starlark::values::OwnedFrozen;
 use starlark::values::Value;
 
@@ -38,10 +41,27 @@ struct HandleObj {
     from_dropped: bool,
 }
 
+/// A frozen heap that received values of other heaps through `add_to_frozen_heap` (which records the reference),
+/// with or without allocations of its own; sealed with `into_ref_named`. The ref is the only owner we keep.
+struct FwdHeapObj {
+    #[allow(dead_code)]
+    heap: FrozenHeapRef,
+    vals: Vec<(FrozenValue, String)>,
+    from_dropped: bool,
+}
+
+/// A `Globals` whose values came from handles (`add_to_frozen_heap(builder.frozen_heap())` + `set`).
+struct GlobalsObj {
+    g: Globals,
+    names: Vec<(String, String)>,
+    from_dropped: bool,
+}
+
 struct World {
     mods: Vec<Option<ModObj>>,
     handles: Vec<Option<HandleObj>>,
-    globals: Vec<Option<(Globals, String)>>,
+    fwd: Vec<Option<FwdHeapObj>>,
+    globals: Vec<Option<GlobalsObj>>,
     log: Vec<String>,
     fails: Vec<String>,
     checks: u64,
@@ -59,6 +79,26 @@ fn encode_callable_or_value<'v>(v: Value<'v>, eval: &mut Evaluator<'v, '_, '_>) 
     } else {
         sl::encode(v)
     }
+}
+
+fn observe_frozen(v: FrozenValue) -> String {
+    Module::with_temp_heap(|m| {
+        let mut eval = Evaluator::new(&m);
+        let _ = eval.set_max_tick_count(1_000_000);
+        encode_callable_or_value(v.to_value(), &mut eval)
+    })
+}
+
+fn observe_global(g: &Globals, name: &str) -> String {
+    let Ok(ast) = sl::parse("g.star", &format!("{name}\n"), &sl::dialect_all()) else { return "parse-error".into() };
+    Module::with_temp_heap(|m| {
+        let mut eval = Evaluator::new(&m);
+        let _ = eval.set_max_tick_count(1_000_000);
+        match eval.eval_module(ast, g) {
+            Ok(v) => encode_callable_or_value(v, &mut eval),
+            Err(e) => format!("evalerr:{}", e.without_diagnostic()),
+        }
+    })
 }
 
 fn observe_handle(h: &OwnedFrozen<Value<'static>>) -> String {
@@ -108,6 +148,32 @@ impl World {
             let direct = if h.is_fn { None } else { Some(h.h.by_ref(|v| sl::encode(*v))) };
             if got != h.expect || direct.as_ref().map(|d| *d != h.expect).unwrap_or(false) {
                 fails.push(format!("handle h{i}: now {} / {:?}, at creation {}", truncate(&got, 300), direct.map(|d| truncate(&d, 200)), truncate(&h.expect, 300)));
+            }
+        }
+        for (i, f) in self.fwd.iter().enumerate() {
+            let Some(f) = f else { continue };
+            for (j, (v, want)) in f.vals.iter().enumerate() {
+                self.checks += 1;
+                if f.from_dropped {
+                    self.dangling_reads += 1;
+                }
+                let got = observe_frozen(*v);
+                if got != *want {
+                    fails.push(format!("forwarding heap fh{i} value #{j}: now {} , at creation {}", truncate(&got, 300), truncate(want, 300)));
+                }
+            }
+        }
+        for (i, g) in self.globals.iter().enumerate() {
+            let Some(g) = g else { continue };
+            for (name, want) in &g.names {
+                self.checks += 1;
+                if g.from_dropped {
+                    self.dangling_reads += 1;
+                }
+                let got = observe_global(&g.g, name);
+                if got != *want {
+                    fails.push(format!("globals g{i}.{name}: now {} , at creation {}", truncate(&got, 300), truncate(want, 300)));
+                }
             }
         }
         for f in fails {
@@ -264,6 +330,76 @@ impl World {
         self.mods.push(Some(ModObj { fm, expect: exp, symbols: vec![format!("x{k}"), format!("s{k}")], depends_on_dropped: from_dropped, chain: 1 }));
     }
 
+    fn live_handles(&self) -> Vec<usize> {
+        self.handles.iter().enumerate().filter(|(_, h)| h.is_some()).map(|x| x.0).collect()
+    }
+
+    /// A new frozen heap that takes over 1..3 handle values through add_to_frozen_heap; 0..2 allocations of its own.
+    fn forwarding_heap(&mut self, ch: &mut Choices) {
+        let live = self.live_handles();
+        if live.is_empty() {
+            return;
+        }
+        let heap = FrozenHeap::new();
+        let own = ch.idx(3);
+        let mut vals: Vec<(FrozenValue, String)> = Vec::new();
+        for i in 0..own {
+            let v = heap.alloc(format!("own-string-{i}-of-forwarding-heap-").repeat(3));
+            vals.push((v, String::new()));
+        }
+        let n = 1 + ch.idx(3);
+        let mut from_dropped = false;
+        let mut used = Vec::new();
+        for _ in 0..n {
+            let hi = live[ch.idx(live.len())];
+            let ho = self.handles[hi].as_ref().unwrap();
+            let Some(fv) = ho.h.as_ref().add_to_frozen_heap(&heap).unpack_frozen() else { continue };
+            from_dropped |= ho.from_dropped;
+            vals.push((fv, ho.expect.clone()));
+            used.push(hi);
+        }
+        let k = self.fwd.len();
+        let heap = heap.into_ref_named(FrozenHeapName::user(&format!("fh{k}")));
+        for (v, e) in vals.iter_mut() {
+            if e.is_empty() {
+                *e = observe_frozen(*v);
+            }
+        }
+        self.log.push(format!("fh{k} = FrozenHeap with {own} own value(s) + add_to_frozen_heap of h{used:?}, sealed"));
+        self.fwd.push(Some(FwdHeapObj { heap, vals, from_dropped }));
+    }
+
+    /// A Globals built from handle values: add_to_frozen_heap(builder.frozen_heap()) + set.
+    fn globals_from_handles(&mut self, ch: &mut Choices) {
+        let live = self.live_handles();
+        if live.is_empty() {
+            return;
+        }
+        let k = self.globals.len();
+        let mut b = if ch.bool() { GlobalsBuilder::new() } else { GlobalsBuilder::standard() };
+        let short_names = ch.bool();
+        let n = 1 + ch.idx(2);
+        let mut names = Vec::new();
+        let mut from_dropped = false;
+        let mut used = Vec::new();
+        for j in 0..n {
+            let hi = live[ch.idx(live.len())];
+            let ho = self.handles[hi].as_ref().unwrap();
+            let Some(fv) = ho.h.as_ref().add_to_frozen_heap(b.frozen_heap()).unpack_frozen() else { continue };
+            let name = if short_names { ["x", "y", "z"][j % 3].to_owned() } else { format!("from_handle_{j}") };
+            b.set(&name, fv);
+            from_dropped |= ho.from_dropped;
+            names.push((name, ho.expect.clone()));
+            used.push(hi);
+        }
+        if ch.chance(1, 3) {
+            b.set("own_global", format!("globals-own-{k}-").repeat(4));
+        }
+        let g = b.build();
+        self.log.push(format!("g{k} = Globals with values of h{used:?} (add_to_frozen_heap + set{})", if short_names { ", one-character names" } else { "" }));
+        self.globals.push(Some(GlobalsObj { g, names, from_dropped }));
+    }
+
     fn module_from_globals(&mut self) {
         let k = self.mods.len();
         let mut b = GlobalsBuilder::standard();
@@ -294,7 +430,21 @@ impl World {
             return;
         }
         let pick_mod = !live_m.is_empty() && (live_h.is_empty() || ch.chance(2, 3));
-        if pick_mod {
+        let live_f: Vec<usize> = self.fwd.iter().enumerate().filter(|(_, h)| h.is_some()).map(|x| x.0).collect();
+        let live_g: Vec<usize> = self.globals.iter().enumerate().filter(|(_, h)| h.is_some()).map(|x| x.0).collect();
+        if (!live_f.is_empty() || !live_g.is_empty()) && ch.chance(1, 6) {
+            if !live_f.is_empty() && (live_g.is_empty() || ch.bool()) {
+                let i = live_f[ch.idx(live_f.len())];
+                let f = self.fwd[i].take();
+                self.log.push(format!("drop fh{i}"));
+                drop(f);
+            } else {
+                let i = live_g[ch.idx(live_g.len())];
+                let g = self.globals[i].take();
+                self.log.push(format!("drop g{i}"));
+                drop(g);
+            }
+        } else if pick_mod {
             let i = live_m[ch.idx(live_m.len())];
             let m = self.mods[i].take().unwrap();
             // everything created from this module now depends on a dropped owner
@@ -303,6 +453,12 @@ impl World {
             }
             for h in self.handles.iter_mut().flatten() {
                 h.from_dropped = true;
+            }
+            for f in self.fwd.iter_mut().flatten() {
+                f.from_dropped = true;
+            }
+            for g in self.globals.iter_mut().flatten() {
+                g.from_dropped = true;
             }
             self.log.push(format!("drop m{i}{}", if other_thread { " on another thread" } else { "" }));
             if other_thread {
@@ -322,7 +478,6 @@ impl World {
                 drop(h);
             }
         }
-        let _ = &self.globals;
         // churn: allocate and drop a scratch frozen heap so that released chunks get reused
         let _ = sl::run_and_freeze("scratch.star", "z = [str(i) * 3 for i in range(200)]\n", &sl::RunCfg::default(), &[]);
     }
@@ -351,14 +506,27 @@ impl Prop for C13 {
         vec![("read_after_owner_dropped", 0.5), ("chain2", 0.25), ("cross_thread_drop", 0.15)]
     }
     fn run(&self, _ctx: &mut Ctx, ch: &mut Choices) -> CaseResult {
-        let mut w = World { mods: Vec::new(), handles: Vec::new(), globals: Vec::new(), log: Vec::new(), fails: Vec::new(), checks: 0, dangling_reads: 0, cross_thread_drops: 0, max_chain: 0 };
+        let mut w = World { mods: Vec::new(), handles: Vec::new(), fwd: Vec::new(), globals: Vec::new(), log: Vec::new(), fails: Vec::new(), checks: 0, dangling_reads: 0, cross_thread_drops: 0, max_chain: 0 };
         w.build_module(ch);
         let steps = 4 + ch.idx(26);
+        let mut labels_extra: Vec<&'static str> = Vec::new();
         for _ in 0..steps {
             if ch.exhausted() || !w.fails.is_empty() {
                 break;
             }
-            match ch.weighted(&[5, 4, 2, 1, 6]) {
+            match ch.weighted(&[5, 4, 2, 1, 6, 2, 2]) {
+                5 => {
+                    if w.fwd.len() < 6 {
+                        w.forwarding_heap(ch);
+                        labels_extra.push("forwarding_heap");
+                    }
+                }
+                6 => {
+                    if w.globals.len() < 6 {
+                        w.globals_from_handles(ch);
+                        labels_extra.push("globals_from_handles");
+                    }
+                }
                 0 => {
                     if w.mods.len() < 8 {
                         w.build_module(ch)
@@ -395,6 +563,9 @@ impl Prop for C13 {
         }
         if w.cross_thread_drops > 0 {
             r.label("cross_thread_drop");
+        }
+        for l in labels_extra {
+            r.label(l);
         }
         for f in w.fails {
             let class = if f.starts_with("generator bug") { "generator-bug" } else { "frozen-value-changed" };
